@@ -619,4 +619,18 @@ pub open spec fn kem_no_collisions(nh: nat, suite: Bytes, dh1: Bytes, ctx1: Byte
     }
 }
 
+
+// ======================================================================== the side condition is inhabited
+// suite_ok holds for each of the 4 AEADs x 3 KDFs the crate offers (the KEM does not enter it), so the
+// generic proofs apply to all 48 suites and none of them is vacuous
+/*@C01 C02 C11 C13*/ pub proof fn lemma_suite_ok_all()
+    ensures
+        suite_ok::<crate::aead::AesGcm128, crate::kdf::HkdfSha256>(), suite_ok::<crate::aead::AesGcm128, crate::kdf::HkdfSha384>(), suite_ok::<crate::aead::AesGcm128, crate::kdf::HkdfSha512>(),
+        suite_ok::<crate::aead::AesGcm256, crate::kdf::HkdfSha256>(), suite_ok::<crate::aead::AesGcm256, crate::kdf::HkdfSha384>(), suite_ok::<crate::aead::AesGcm256, crate::kdf::HkdfSha512>(),
+        suite_ok::<crate::aead::ChaCha20Poly1305, crate::kdf::HkdfSha256>(), suite_ok::<crate::aead::ChaCha20Poly1305, crate::kdf::HkdfSha384>(), suite_ok::<crate::aead::ChaCha20Poly1305, crate::kdf::HkdfSha512>(),
+        suite_ok::<crate::aead::ExportOnlyAead, crate::kdf::HkdfSha256>(), suite_ok::<crate::aead::ExportOnlyAead, crate::kdf::HkdfSha384>(), suite_ok::<crate::aead::ExportOnlyAead, crate::kdf::HkdfSha512>(),
+{
+    broadcast use alg_sizes;
+}
+
 } // verus!
